@@ -1,2 +1,18 @@
 import GemVerif.Props.C19
 #print axioms GemVerif.Props.C19.print_leaf
+#print axioms GemVerif.Props.C19.print_eq_render
+#print axioms GemVerif.Props.C19.read_render_line
+#print axioms GemVerif.Props.C19.read_print
+#print axioms GemVerif.Props.C19.parse_print_prefix
+#print axioms GemVerif.Props.C19.parse_print
+#print axioms GemVerif.Props.C19.rules_eval
+#print axioms GemVerif.Props.C19.print_parse_eval
+#print axioms GemVerif.Props.C19.split_print
+#print axioms GemVerif.Props.C19.print_parse_eval_text
+#print axioms GemVerif.Props.C19.print_parse_eval_lines
+#print axioms GemVerif.Props.C19.readBack_distinct
+#print axioms GemVerif.Props.C19.print_parse_eval_distinct
+#print axioms GemVerif.Props.C19.default_names_distinct
+#print axioms GemVerif.Props.C19.user_names_distinct
+#print axioms GemVerif.Props.C19.wellFormed_init
+#print axioms GemVerif.Props.C19.wellFormed_addChild
